@@ -17,9 +17,11 @@ from vlib import ber_ref as B
 from vlib import build, driver, model as M, rigp, runner
 
 PID = "C04"
-KINDS_C = ["ok", "rid+1", "rid-1", "rid0", "ridneg", "rid+2^32", "rid-2^32", "stale", "comm_prefix", "comm_suffix", "comm_empty", "comm_case", "version", "trunc", "late", "dup"]
+KINDS_C = ["ok", "rid+1", "rid-1", "rid0", "ridneg", "rid+2^32", "rid-2^32", "stale", "comm_prefix", "comm_suffix", "comm_empty", "comm_case", "version", "trunc", "late", "dup",
+           "echo_get", "echo_next", "echo_bulk"]
 KINDS_3 = ["ok", "rid+1", "rid-1", "rid0", "ridneg", "rid+2^32", "rid-2^32", "stale", "msgid", "msgid+2^32", "user", "engine", "version", "trunc", "late", "dup", "report",
-           "report_engine", "report_user", "report_msgid", "rid+1_privflag0", "stale_privflag0", "user_empty_f4", "user_empty_f0"]
+           "report_engine", "report_user", "report_msgid", "rid+1_privflag0", "stale_privflag0", "user_empty_f4", "user_empty_f0", "echo_get", "echo_next", "echo_bulk"]
+ECHO = {"echo_get": B.PDU_GET, "echo_next": B.PDU_GETNEXT, "echo_bulk": B.PDU_GETBULK}
 T_SHORT = 0.25
 
 
@@ -99,6 +101,11 @@ class Script:
                 ov["user"] = req.m["usm"]["user"] + b"x"
                 ov["auth_user"] = agent.users.get(req.m["usm"]["user"])
                 d["creds"] = False
+            elif k in ECHO:
+                # a *request* PDU (someone's GET / GETNEXT / GETBULK reflected to us, e.g. an earlier bulk step echoed
+                # late) with a foreign request-id: well-formed, of the session's version and credentials - skipped
+                d["rid"] = (req.request_id + 1) & 0x7FFFFFFF
+                ov["pdu_tag_override"] = ECHO[k]
             elif k in ("user_empty_f4", "user_empty_f0"):
                 # a Response (not a Report) without user name, unauthenticated and in clear, msgFlags = reportable only / none:
                 # what a discovery Report's header looks like, around an ordinary answer
@@ -125,7 +132,10 @@ class Script:
                     ov["msg_id"] = d["mid"]
             if d["rid"] != req.request_id:
                 ov["request_id"] = d["rid"]
-            if k.startswith("report"):
+            if k in ECHO:
+                tag = ov.pop("pdu_tag_override")
+                dg = agent.reply(req, [B.enc_varbind(name, B.enc_null())], pdu_tag=tag, **(dict(ov, error_index=10) if tag == B.PDU_GETBULK else ov))
+            elif k.startswith("report"):
                 dg = agent.reply(req, vb, pdu_tag=B.PDU_REPORT, **ov)
             else:
                 dg = agent.reply(req, vb, **ov)
